@@ -54,6 +54,10 @@ CLAIMED = {
          "Exploration. Generated tables of 1-4 units with every AttributeValue variant, boundary payloads around the size-model steps, forward/backward/cross-unit references, reserved-then-added and reserved-never-added entries, base types anywhere among the root's children, sibling flags, shared strings and lists are written and read back; the forest, every attribute's meaning and every reference target must equal the request, and unencodable requests must be refused. The writer's internal offset-prediction assertions count as violations in the dev profile.",
          "Trusts gimli's reader for decoding (checked against independent models in C02/C03/C07/C08) and the request model in harness/src/wmodel.rs. Data4/Data8 are not paired with names that are section offsets in DWARF 2/3.",
          "DESIGN.md §4 C11"),
+ 'C15': ("proptest random expressions built through every write::Expression builder, placed in DIE attributes, location lists and CFI; oracle = the built operation list (decode round trip, branch landing offsets, reference targets by identity marker) plus a differential evaluation of emitted bytes vs the harness's canonical encoding on an independent stack machine",
+         "Exploration. Generated expressions over every op_* builder with boundary operands, nested entry values, forward/backward/to-end branches, in-unit and cross-unit references before/after the referring entry, versions 2-5 x formats x address sizes x byte orders, three placements. Emitted bytes must decode to the built operations, branches must land on the intended operation, references must resolve to the intended entry, the container must parse back intact (length prefix = bytes emitted; the writer's own size assertions are live in the dev profile), evaluation results must agree, and forward ULEB references / references in CFI must be refused.",
+         "Trusts gimli's operation decoder (checked against the independent decoder in C07) and harness/src/exprvm.rs for evaluation. Branch displacements beyond 16 bits, typed constants over 255 bytes and pre-v5 location expressions over 65535 bytes may be refused.",
+         "DESIGN.md §4 C15"),
 }
 NOT_YET = "check not built yet in this session (machinery is being extended property by property; see DESIGN.md §4)"
 
